@@ -8,11 +8,14 @@ distances are compared squared.
 
 A *history* is any list of calls, accepted or rejected:
 legacy `LOp` = place / move / remove / get_neighbors (which builds the cache),
-experimental `EOp` = new agent / position assignment / remove.
+experimental `EOp` = new agent / position assignment / `position += v` / `agent.remove()` / a user write through the public
+`space.agent_positions` view (`raw`, not validated by anything) — so every `∀ ops` below includes histories with such writes.
 `lrun c ops` / `erun c cap ops` is the model state after the history on a fresh space with bounds `c`
 (and initial capacity `cap`); `lspec c ops` / `espec c ops` is the property's own bookkeeping of the
-same history: the agents placed and not removed, in order, and the value last assigned to each
-(`lspecStep`, `especStep`: no cache, no array, no index maps).
+same history: the agents placed and not removed, in order, the value last assigned to each, and (experimental)
+which agent objects were removed (`lspecStep`, `especStep`: no cache, no array, no index maps).
+The experimental agent-level API is `agentGet / agentSet / agentIadd / agentRemove / agentNir / agentNn`
+(an `AttributeError` on a removed agent object, otherwise `getPos / setPos / … `: `C10_exp_agent_api`).
 -/
 namespace Mesa.Cont
 
@@ -86,16 +89,25 @@ theorem C10_legacy_cache_coherent (c : LCfg) (ops : List LOp) : LInv (lrun c ops
     growth of the array, by compaction on removal and by assignments to other agents — and an agent
     that is not in the space has no row. -/
 theorem C10_exp_positions_all_histories (c : ECfg) (cap : Nat) (ops : List EOp) :
-    (erun c cap ops).active = (espec c ops).1 ∧
-    (∀ a p, (espec c ops).2 a = some p → getPos (erun c cap ops) a = .ok p) ∧
-    (∀ a, a ∉ (espec c ops).1 → getPos (erun c cap ops) a = .error .key) := by
+    (erun c cap ops).active = (espec c ops).members ∧
+    (∀ a p, (espec c ops).pos a = some p →
+      agentGet (erun c cap ops) a = .ok p ∧ getPos (erun c cap ops) a = .ok p) ∧
+    (∀ a, a ∉ (espec c ops).members →
+      agentGet (erun c cap ops) a = .error (if (espec c ops).removed a then .attr else .key) ∧
+      getPos (erun c cap ops) a = .error .key) := by
   have h := erun_refines c cap ops
-  exact ⟨h.active, h.pos, fun a ha => getPos_of_not_mem h.inv (by rw [h.active]; exact ha)⟩
+  refine ⟨h.active, fun a p hp => ?_, fun a ha => ?_⟩
+  · have hm : a ∈ (erun c cap ops).active := by
+      rw [h.active]; exact Classical.byContradiction fun hn => by rw [h.out a hn] at hp; cases hp
+    exact ⟨by rw [agentGet_of_mem h.inv hm]; exact h.pos a p hp, h.pos a p hp⟩
+  · have hn : a ∉ (erun c cap ops).active := by rw [h.active]; exact ha
+    exact ⟨by rw [agentGet_of_not_mem h.inv hn, h.gone], getPos_of_not_mem h.inv hn⟩
 
 /-- Experimental frame: a call about another agent (creation — with or without growth of the array —,
-    assignment, removal with compaction) does not change what agent `a` reads back. -/
+    assignment, removal with compaction, a write through the `agent_positions` view into another agent's row or beyond
+    the view) does not change what agent `a` reads back. -/
 theorem C10_exp_frame (c : ECfg) (cap : Nat) (ops : List EOp) (op : EOp) (a : Aid)
-    (ha : a ∈ (erun c cap ops).active) (hne : op.target ≠ a) :
+    (ha : a ∈ (erun c cap ops).active) (hne : op.target (erun c cap ops) ≠ some a) :
     getPos (erun c cap (ops ++ [op])) a = getPos (erun c cap ops) a := by
   have h := (erun_refines c cap ops).inv
   simp only [erun, List.foldl_append, List.foldl_cons, List.foldl_nil]
@@ -110,19 +122,34 @@ theorem C10_exp_index_maps_consistent (c : ECfg) (cap : Nat) (ops : List EOp) :
   let h := (erun_refines c cap ops).inv
   ⟨h.len, h.cap, h.nodup, h.idx⟩
 
-/-- Experimental: every assigned position lies inside the bounds. -/
-theorem C10_exp_positions_inside (c : ECfg) (hw : c.WF) (ops : List EOp) :
-    ∀ a p, (espec c ops).2 a = some p → inBounds c.dims p = true := by
-  suffices H : ∀ (ops : List EOp) (st : List Aid × (Aid → Option Pos)),
-      (∀ a p, st.2 a = some p → inBounds c.dims p = true) →
-      ∀ a p, (ops.foldl (especStep c) st).2 a = some p → inBounds c.dims p = true from
-    H ops _ (by simp)
+/-- Experimental: every position assigned through the agent API (by the setter or by `+=`) lies inside the bounds — in
+    every history whose writes through the `agent_positions` view, if any, wrote points of the space (the view does not
+    validate: `C10_exp_raw_view_write`, and the example below it, show an agent put outside a bounded space that way). -/
+theorem C10_exp_positions_inside (c : ECfg) (hw : c.WF) (ops : List EOp)
+    (hraw : ∀ i p, EOp.raw i p ∈ ops → inBounds c.dims p = true) :
+    ∀ a p, (espec c ops).pos a = some p → inBounds c.dims p = true := by
+  suffices H : ∀ (ops : List EOp) (st : ESpec), (∀ i p, EOp.raw i p ∈ ops → inBounds c.dims p = true) →
+      (∀ a p, st.pos a = some p → inBounds c.dims p = true) →
+      ∀ a p, (ops.foldl (especStep c) st).pos a = some p → inBounds c.dims p = true from
+    H ops _ hraw (by simp)
   intro ops
   induction ops with
-  | nil => intro st h; exact h
+  | nil => intro st _ h; exact h
   | cons op ops ih =>
-    intro st h
-    apply ih
+    intro st hraw h
+    apply ih _ (fun i p hm => hraw i p (List.mem_cons_of_mem _ hm))
+    have hassign : ∀ (a : Aid) (p : Pos) (b : Aid) (q : Pos),
+        (match eassign c p with
+          | some p' => ({ st with pos := upd st.pos a (some p') } : ESpec)
+          | none => st).pos b = some q → inBounds c.dims q = true := by
+      intro a p b q hb
+      split at hb
+      · rename_i p' hp
+        by_cases hba : b = a
+        · simp only [upd, hba, if_true, Option.some.injEq] at hb; subst hb
+          exact eassign_inBounds c hw hp
+        · simp only [upd, hba, if_false] at hb; exact h b q hb
+      · exact h b q hb
     cases op with
     | new a =>
       simp only [especStep]; split
@@ -133,20 +160,28 @@ theorem C10_exp_positions_inside (c : ECfg) (hw : c.WF) (ops : List EOp) :
         · simp only [upd, hba, if_false] at hb; exact h b q hb
     | set a p =>
       simp only [especStep]; split
-      · split
-        · rename_i p' hp
-          intro b q hb
-          by_cases hba : b = a
-          · simp only [upd, hba, if_true, Option.some.injEq] at hb; subst hb
-            exact eassign_inBounds c hw hp
-          · simp only [upd, hba, if_false] at hb; exact h b q hb
-        · exact h
+      · exact hassign a p
       · exact h
     | remove a =>
       simp only [especStep]; split
       · intro b q hb
         by_cases hba : b = a
         · simp [upd, hba] at hb
+        · simp only [upd, hba, if_false] at hb; exact h b q hb
+      · exact h
+    | iadd a v =>
+      simp only [especStep]; split
+      · split
+        · rename_i q _; exact hassign a (vadd q v)
+        · exact h
+      · exact h
+    | raw i p =>
+      simp only [especStep]; split
+      · rename_i a _
+        intro b q hb
+        by_cases hba : b = a
+        · simp only [upd, hba, if_true, Option.some.injEq] at hb; subst hb
+          exact hraw i p (List.mem_cons_self ..)
         · simp only [upd, hba, if_false] at hb; exact h b q hb
       · exact h
 
@@ -175,32 +210,400 @@ theorem C10_legacy_valid_calls_succeed (c : LCfg) (ops : List LOp) (a : Aid) (p 
     exact ⟨_, by simp only [remove, this]; rfl⟩
 
 /-- Experimental, every history and every initial capacity: a call the property allows never raises —
-    an agent of the space can be assigned every position the assignment rule accepts (whatever the
-    capacity was: the array has grown), is rejected with `ValueError` otherwise, and can be removed. -/
+    an agent of the space can be assigned (`agent.position = p`) every position the assignment rule accepts
+    (whatever the capacity was: the array has grown) and reads it back, is rejected with `ValueError` otherwise,
+    and can be removed. -/
 theorem C10_exp_valid_calls_succeed (c : ECfg) (cap : Nat) (ops : List EOp) (a : Aid) (p : Pos) :
     let s := erun c cap ops
     a ∈ s.active →
-    (∀ p', eassign c p = some p' → ∃ s', setPos s a p = .ok s' ∧ getPos s' a = .ok p') ∧
-    (eassign c p = none → setPos s a p = .error .oob) ∧
-    (∃ s', removeAgent s a = .ok s') := by
+    (∀ p', eassign c p = some p' → ∃ s', agentSet s a p = .ok s' ∧ agentGet s' a = .ok p') ∧
+    (eassign c p = none → agentSet s a p = .error .oob) ∧
+    (∃ s', agentRemove s a = .ok s') := by
   dsimp only
   intro ha
   have h := erun_refines c cap ops
+  rw [agentSet_of_mem h.inv ha]
   refine ⟨fun p' hp => ?_, fun hp => ?_, ?_⟩
   · rcases setPos_spec h.inv a p with ⟨hn, _⟩ | ⟨_, hr, _⟩ | ⟨q, i, _, hr, hidx, he⟩
     · exact absurd ha hn
     · rw [h.cfg, hp] at hr; cases hr
     · rw [h.cfg, hp] at hr; cases hr
-      exact ⟨_, he, by rw [getPos_set h.inv hidx]; simp⟩
+      refine ⟨_, he, ?_⟩
+      rw [agentGet_of_mem (einv_set h.inv i p') (by exact ha), getPos_set h.inv hidx]; simp
   · rcases setPos_spec h.inv a p with ⟨hn, _⟩ | ⟨_, _, he⟩ | ⟨q, i, _, hr, _, _⟩
     · exact absurd ha hn
     · exact he
     · rw [h.cfg, hp] at hr; cases hr
   · obtain ⟨i, hi⟩ := (h.inv.mem_iff a).mp ha
-    obtain ⟨s', h1, _⟩ := removeAgent_spec h.inv hi
+    obtain ⟨s', h1, _⟩ := agentRemove_spec h.inv hi
     exact ⟨s', h1⟩
 
-/-! ## radius queries -/
+/-- Experimental, every history: `agent.position += v` is the assignment of (current position) + v — the sum is
+    validated / wrapped by the assignment rule before anything is written (after repair CS2: the getter hands
+    out a copy, so `+=` cannot write into the array behind the setter's back).  A rejected `+=` leaves the
+    space as it was. -/
+theorem C10_exp_iadd_is_assignment (c : ECfg) (cap : Nat) (ops : List EOp) (a : Aid) (q v : Pos) :
+    let s := erun c cap ops
+    a ∈ s.active → agentGet s a = .ok q →
+    agentIadd s a v = agentSet s a (vadd q v) ∧
+    (∀ p', eassign c (vadd q v) = some p' → ∃ s', agentIadd s a v = .ok s' ∧ agentGet s' a = .ok p') ∧
+    (eassign c (vadd q v) = none → agentIadd s a v = .error .oob ∧ estep s (.iadd a v) = s) := by
+  dsimp only
+  intro ha hq
+  have hv := C10_exp_valid_calls_succeed c cap ops a (vadd q v) ha
+  have e : agentIadd (erun c cap ops) a v = agentSet (erun c cap ops) a (vadd q v) := by
+    simp only [agentIadd, hq]
+  refine ⟨e, fun p' hp => ?_, fun hp => ?_⟩
+  · rw [e]; exact hv.1 p' hp
+  · have := hv.2.1 hp
+    exact ⟨by rw [e]; exact this, by simp only [estep, e, this]⟩
+
+/-- Experimental life cycle, every history: an agent object whose `remove()` was executed is out of the space
+    for good — it is not in `space.agents`, no query returns it (`C10_exp_radius_exact`, … range over
+    `space.agents`), and every method of the agent object (`position`, `position = …`, `position += …`,
+    `remove()` again, both neighbour queries) raises `AttributeError` and changes nothing; through the space-level
+    API (`agents=[a]`) it is a `KeyError`. -/
+theorem C10_exp_removed_agent_is_dead (argpart : List Int → Nat → List Nat) (c : ECfg) (cap : Nat)
+    (ops : List EOp) (a : Aid) :
+    let s := erun c cap ops
+    (espec c ops).removed a = true →
+    a ∉ s.active ∧
+    agentGet s a = .error .attr ∧ (∀ p, agentSet s a p = .error .attr) ∧ (∀ v, agentIadd s a v = .error .attr) ∧
+    agentRemove s a = .error .attr ∧ (∀ r, agentNir s a r = .error .attr) ∧
+    (∀ k, agentNn argpart s a k = .error .attr) ∧ (∀ j, agentPoke s a j = .error .attr) ∧
+    (∀ pt, distancesOf s pt (some [a]) = .error .key) ∧
+    (∀ op : EOp, op.target s = some a → estep s op = s) := by
+  dsimp only
+  intro hr
+  have h := erun_refines c cap ops
+  have hg : (erun c cap ops).gone a = true := by rw [h.gone]; exact hr
+  have hn : (erun c cap ops).a2i a = none := h.inv.gone a hg
+  have hget : agentGet (erun c cap ops) a = .error .attr := by simp [agentGet, hg]
+  refine ⟨(h.inv.not_mem_iff a).mpr hn, hget, fun p => by simp [agentSet, hg],
+    fun v => by simp [agentIadd, hget], by simp [agentRemove, hg], fun r => by simp [agentNir, hg],
+    fun k => by simp [agentNn, hg], fun j => by simp [agentPoke, hget],
+    fun pt => by simp [distancesOf, rowsOf, collect, hn, Except.map], ?_⟩
+  intro op ht
+  cases op with
+  | new b => simp only [EOp.target, Option.some.injEq] at ht; subst ht; simp [estep, hg]
+  | set b p => simp only [EOp.target, Option.some.injEq] at ht; subst ht; simp [estep, agentSet, hg]
+  | remove b => simp only [EOp.target, Option.some.injEq] at ht; subst ht; simp [estep, agentRemove, hg]
+  | iadd b v => simp only [EOp.target, Option.some.injEq] at ht; subst ht; simp [estep, agentIadd, hget]
+  | raw i p =>
+    -- no row of the view belongs to a removed agent: a write through the view cannot reach it
+    exact absurd (List.mem_of_getElem? ht) ((h.inv.not_mem_iff a).mpr hn)
+
+/-- … and removal is what kills it: on an agent of the space `remove()` succeeds, takes exactly that agent out of
+    `space.agents`, marks the object removed, and no other agent's position changes. -/
+theorem C10_exp_remove_lifecycle (c : ECfg) (cap : Nat) (ops : List EOp) (a : Aid) :
+    let s := erun c cap ops
+    a ∈ s.active →
+    (espec c ops).removed a = false ∧
+    ∃ s', agentRemove s a = .ok s' ∧ s' = erun c cap (ops ++ [.remove a]) ∧
+      s'.active = s.active.filter (fun b => b ≠ a) ∧ (espec c (ops ++ [.remove a])).removed a = true ∧
+      ∀ b, b ≠ a → agentGet s' b = agentGet s b := by
+  dsimp only
+  intro ha
+  have h := erun_refines c cap ops
+  have h' := erun_refines c cap (ops ++ [.remove a])
+  obtain ⟨i, hi⟩ := (h.inv.mem_iff a).mp ha
+  obtain ⟨s', h1, _, _, _, _, _, h6, _, h8⟩ := agentRemove_spec h.inv hi
+  have hrun : erun c cap (ops ++ [.remove a]) = s' := by
+    simp only [erun, List.foldl_append, List.foldl_cons, List.foldl_nil, estep]
+    show (match agentRemove (erun c cap ops) a with | .ok s' => s' | .error _ => erun c cap ops) = s'
+    rw [h1]
+  have hmem : a ∈ (espec c ops).members := by rw [← h.active]; exact ha
+  have hspec : espec c (ops ++ [.remove a]) = especStep c (espec c ops) (.remove a) := by
+    simp only [espec, List.foldl_append, List.foldl_cons, List.foldl_nil]
+  refine ⟨by rw [← h.gone]; exact h.inv.not_gone hi, s', h1, hrun.symm, ?_, ?_, ?_⟩
+  · rw [← hrun, h'.active, hspec, h.active]; simp [especStep, hmem]
+  · rw [hspec]; simp [especStep, hmem, upd]
+  · intro b hba
+    simp only [agentGet, h6, upd, hba, if_false]
+    rw [h8 b hba]
+
+/-- The agent-level API on an agent of the space is the space-level function the other theorems talk about. -/
+theorem C10_exp_agent_api (argpart : List Int → Nat → List Nat) (c : ECfg) (cap : Nat) (ops : List EOp) (a : Aid) :
+    let s := erun c cap ops
+    a ∈ s.active →
+    agentGet s a = getPos s a ∧ (∀ p, agentSet s a p = setPos s a p) ∧
+    (∀ r, agentNir s a r = neighborsInRadius s a r) ∧ (∀ k, agentNn argpart s a k = nearestNeighbors argpart s a k) := by
+  dsimp only
+  intro ha
+  have h := erun_refines c cap ops
+  obtain ⟨i, hi⟩ := (h.inv.mem_iff a).mp ha
+  have hg := h.inv.not_gone hi
+  exact ⟨by simp [agentGet, hg], fun p => by simp [agentSet, hg], fun r => by simp [agentNir, hg],
+    fun k => by simp [agentNn, hg]⟩
+
+/-- `space.agent_positions` is a *view* of the filled rows, and a user write through it, `space.agent_positions[i] = p`
+    (or a vectorised update of all rows), at any state any history can reach: it lands in the row of the `i`-th agent of
+    `space.agents` with no validation — that agent then reports `p` even if `p` is outside the bounds of a bounded space
+    or un-wrapped on a torus — and touches nothing else: membership, order, index maps, counts, capacity and every other
+    agent's position are as before.  For a value the assignment rule stores as it is (in bounds) the write is
+    indistinguishable from `agent.position = p`.  Beyond the view it is an `IndexError`.  The write is a call of the
+    histories (`EOp.raw`): the bookkeeping `espec` records `p` as the agent's position, and every history theorem of this
+    file (positions, index maps, exact radius / k-nearest / distance answers) holds after any number of such writes —
+    they can misplace an agent, they cannot corrupt the space. -/
+theorem C10_exp_raw_view_write (c : ECfg) (cap : Nat) (ops : List EOp) (i : Nat) (p : Pos) :
+    let s := erun c cap ops
+    (∀ a, s.active[i]? = some a →
+      ∃ s', rawWrite s i p = .ok s' ∧ s'.active = s.active ∧ s'.a2i = s.a2i ∧ s'.n = s.n ∧ s'.cap = s.cap ∧
+        s'.gone = s.gone ∧ agentGet s' a = .ok p ∧ (∀ b, b ≠ a → agentGet s' b = agentGet s b) ∧
+        s' = erun c cap (ops ++ [.raw i p]) ∧ (espec c (ops ++ [.raw i p])).pos a = some p ∧
+        (inBounds c.dims p = true → s' = erun c cap (ops ++ [.set a p]))) ∧
+    (s.active.length ≤ i → rawWrite s i p = .error .index ∧ erun c cap (ops ++ [.raw i p]) = s) := by
+  dsimp only
+  have h := erun_refines c cap ops
+  refine ⟨fun a ha => ?_, fun hi => ?_⟩
+  · have hidx : (erun c cap ops).a2i a = some i := (h.inv.idx a i).mpr ha
+    have hlt : i < (erun c cap ops).view := by rw [h.inv.view]; exact h.inv.lt hidx
+    have hmem : a ∈ (erun c cap ops).active := List.mem_of_getElem? ha
+    refine ⟨{ erun c cap ops with buf := upd (erun c cap ops).buf i p }, by simp [rawWrite, hlt], rfl, rfl, rfl, rfl, rfl,
+      ?_, fun b hb => ?_, ?_, ?_, fun hin => ?_⟩
+    · rw [agentGet_of_mem (einv_set h.inv i p) (by exact hmem), getPos_set h.inv hidx]; simp
+    · simp only [agentGet]
+      rw [getPos_set h.inv hidx]; simp [hb]
+    · simp only [erun, List.foldl_append, List.foldl_cons, List.foldl_nil, estep, rawWrite]
+      have hlt' : i < (List.foldl estep (einit c cap) ops).view := hlt
+      simp [hlt']
+    · have hm : (espec c ops).members[i]? = some a := by rw [← h.active]; exact ha
+      simp only [espec, List.foldl_append, List.foldl_cons, List.foldl_nil, especStep] at hm ⊢
+      simp [hm, upd]
+    · have hstep : erun c cap (ops ++ [EOp.set a p]) = estep (erun c cap ops) (EOp.set a p) := by
+        simp only [erun, List.foldl_append, List.foldl_cons, List.foldl_nil]
+      rw [hstep]
+      show _ = (match agentSet (erun c cap ops) a p with | .ok s' => s' | .error _ => erun c cap ops)
+      rw [agentSet_of_mem h.inv hmem]
+      rcases setPos_spec h.inv a p with ⟨hn, _⟩ | ⟨_, hr, _⟩ | ⟨q, j, _, hr, hj, he⟩
+      · exact absurd hmem hn
+      · rw [h.cfg] at hr; simp [eassign, hin] at hr
+      · rw [h.cfg] at hr
+        have hq : q = p := by simp [eassign, hin] at hr; exact hr.symm
+        have hji : j = i := by rw [hidx] at hj; cases hj; rfl
+        rw [he, hq, hji]
+  · have : ¬ i < (erun c cap ops).view := by rw [h.inv.view, h.inv.len]; omega
+    refine ⟨by simp [rawWrite, this], ?_⟩
+    have this' : ¬ i < (List.foldl estep (einit c cap) ops).view := this
+    simp [erun, List.foldl_append, estep, rawWrite, this']
+
+/-! ### vectors with the wrong number of coordinates -/
+
+/-- The code never checks the length of a point; this is what happens instead, at every reachable state of a space with
+    `nd ≥ 2` axes (`…V` = the call with a vector of any length).  With the right length the call is the one the other
+    theorems talk about.  A one-element vector `[x]` is silently taken for `(x, …, x)` by assignment, `+=`, writes through the
+    view, difference vectors, `in_bounds` — and by the distance-based queries of a torus, while on a bounded space the same
+    queries raise `ValueError` (`scipy.cdist` counts columns).  Every other length raises `ValueError` everywhere, and
+    nothing is written. -/
+theorem C10_exp_vector_lengths (argpart : List Int → Nat → List Nat) (c : ECfg) (cap : Nat) (ops : List EOp) (a : Aid)
+    (p : Pos) :
+    let s := erun c cap ops
+    a ∈ s.active →
+    (p.length = c.dims.length →
+      agentSetV s a p = agentSet s a p ∧ agentIaddV s a p = agentIadd s a p ∧ (∀ i, rawWriteV s i p = rawWrite s i p) ∧
+      (∀ sub, distancesOfV s p sub = distancesOf s p sub) ∧ (∀ sub, diffsOfV s p sub = diffsOf s p sub) ∧
+      (∀ r, agentsInRadiusV s p r = .ok (agentsInRadius s p r)) ∧ (∀ k, kNearestV argpart s p k = kNearest argpart s p k)) ∧
+    (∀ x, p = [x] → c.dims.length ≠ 1 →
+      agentSetV s a p = agentSet s a (List.replicate c.dims.length x) ∧
+      agentIaddV s a p = agentIadd s a (List.replicate c.dims.length x) ∧
+      (∀ i, rawWriteV s i p = rawWrite s i (List.replicate c.dims.length x)) ∧
+      (∀ sub, diffsOfV s p sub = diffsOf s (List.replicate c.dims.length x) sub) ∧
+      inBoundsV s p = .ok (inBounds c.dims (List.replicate c.dims.length x)) ∧
+      (c.torus = true → (∀ sub, distancesOfV s p sub = distancesOf s (List.replicate c.dims.length x) sub) ∧
+        ∀ r, agentsInRadiusV s p r = .ok (agentsInRadius s (List.replicate c.dims.length x) r)) ∧
+      (c.torus = false → distancesOfV s p none = .error .value ∧ (∀ r, agentsInRadiusV s p r = .error .value) ∧
+        ∀ k, kNearestV argpart s p k = .error .value)) ∧
+    (p.length ≠ c.dims.length → p.length ≠ 1 →
+      agentSetV s a p = .error .value ∧ agentIaddV s a p = .error .value ∧
+      (∀ i, i < s.active.length → rawWriteV s i p = .error .value) ∧
+      distancesOfV s p none = .error .value ∧ diffsOfV s p none = .error .value ∧
+      (∀ r, agentsInRadiusV s p r = .error .value) ∧ (∀ k, kNearestV argpart s p k = .error .value) ∧
+      inBoundsV s p = .error .value ∧ torusCorrectV s p = .error .value) := by
+  dsimp only
+  intro ha
+  have h := erun_refines c cap ops
+  have hnd : (erun c cap ops).nd = c.dims.length := by simp [ESpace.nd, h.cfg]
+  have ht : (erun c cap ops).cfg.torus = c.torus := by rw [h.cfg]
+  obtain ⟨i0, hi0⟩ := (h.inv.mem_iff a).mp ha
+  have hg := h.inv.not_gone hi0
+  have hget : agentGet (erun c cap ops) a = .ok ((erun c cap ops).buf i0) := by
+    rw [agentGet_of_mem h.inv ha, getPos_of_idx h.inv hi0]
+  have hsub : ∀ {α : Type} (q : Pos) (sub : Option (List Aid)) (f : Pos → Except Err α)
+      (hf : ∀ l e, sub = some l → rowsOf (erun c cap ops) l = .error e → f q = .error e) (vc : Bool),
+      queryPoint (erun c cap ops) vc p = .ok q → withPoint (erun c cap ops) vc p sub f = f q := by
+    intro α q sub f hf vc hq
+    cases sub with
+    | none => simp only [withPoint, hq]
+    | some l =>
+      cases hr : rowsOf (erun c cap ops) l with
+      | error e => simp only [withPoint, hr]; exact (hf l e rfl hr).symm
+      | ok _ => simp only [withPoint, hr, hq]
+  have hdist : ∀ q l e, rowsOf (erun c cap ops) l = .error e → distancesOf (erun c cap ops) q (some l) = .error e := by
+    intro q l e hr; simp [distancesOf, hr, Except.map]
+  have hdiff : ∀ q l e, rowsOf (erun c cap ops) l = .error e → diffsOf (erun c cap ops) q (some l) = .error e := by
+    intro q l e hr; simp [diffsOf, hr, Except.map]
+  refine ⟨fun hl => ?_, fun x hx hn1 => ?_, fun hl h1 => ?_⟩
+  · have hb0 : bcast c.dims.length p = .ok p := by simp [bcast, hl]
+    have hb : bcast (erun c cap ops).nd p = .ok p := by rw [hnd]; exact hb0
+    have hq : ∀ vc, queryPoint (erun c cap ops) vc p = .ok p := by
+      intro vc; simp only [queryPoint, hnd, hb0, hl]; split <;> simp
+    refine ⟨by simp [agentSetV, agentSet, hg, hb], by simp [agentIaddV, agentIadd, hget, hb],
+      fun i => by simp only [rawWriteV, rawWrite, hb], fun sub => ?_, fun sub => ?_, fun r => ?_, fun k => ?_⟩
+    · exact hsub p sub _ (fun l e hs hr => by subst hs; exact hdist p l e hr) true (hq true)
+    · exact hsub p sub _ (fun l e hs hr => by subst hs; exact hdiff p l e hr) false (hq false)
+    · exact hsub p none _ (fun l e hs _ => by cases hs) true (hq true)
+    · exact hsub p none _ (fun l e hs _ => by cases hs) true (hq true)
+  · subst hx
+    have hb : bcast (erun c cap ops).nd [x] = .ok (List.replicate c.dims.length x) := by
+      simp only [bcast, hnd, List.length_singleton]
+      rw [if_neg (Ne.symm hn1)]
+    refine ⟨by simp [agentSetV, agentSet, hg, hb], by simp [agentIaddV, agentIadd, hget, hb],
+      fun i => by simp only [rawWriteV, rawWrite, hb], fun sub => ?_, by simp [inBoundsV, hb, h.cfg, Except.map],
+      fun htor => ⟨fun sub => ?_, fun r => ?_⟩, fun htor => ?_⟩
+    · exact hsub _ sub _ (fun l e hs hr => by subst hs; exact hdiff _ l e hr) false (by simp [queryPoint, hb])
+    · exact hsub _ sub _ (fun l e hs hr => by subst hs; exact hdist _ l e hr) true (by simp [queryPoint, hb, ht, htor])
+    · exact hsub _ none _ (fun l e hs _ => by cases hs) true (by simp [queryPoint, hb, ht, htor])
+    · have hq : queryPoint (erun c cap ops) true [x] = .error .value := by
+        simp only [queryPoint, ht, htor, hnd, List.length_singleton]
+        simp [Ne.symm hn1]
+      exact ⟨by simp [distancesOfV, withPoint, hq], fun r => by simp [agentsInRadiusV, withPoint, hq],
+        fun k => by simp [kNearestV, withPoint, hq]⟩
+  · have hb0 : bcast c.dims.length p = .error .value := by
+      simp only [bcast, hl, if_false]
+      match p, h1 with
+      | [], _ => rfl
+      | [_], h1 => simp at h1
+      | _ :: _ :: _, _ => rfl
+    have hb : bcast (erun c cap ops).nd p = .error .value := by rw [hnd]; exact hb0
+    have hq : ∀ vc, queryPoint (erun c cap ops) vc p = .error .value := by
+      intro vc; simp only [queryPoint, hnd, hb0, hl, if_false]; split <;> rfl
+    refine ⟨by simp [agentSetV, hg, hb], by simp [agentIaddV, hget, hb], fun i hi => ?_,
+      by simp [distancesOfV, withPoint, hq], by simp [diffsOfV, withPoint, hq], fun r => by simp [agentsInRadiusV, withPoint, hq],
+      fun k => by simp [kNearestV, withPoint, hq], by simp [inBoundsV, hb, Except.map], by simp [torusCorrectV, hb, Except.map]⟩
+    have hlt : i < (erun c cap ops).view := by rw [h.inv.view, h.inv.len]; exact hi
+    simp [rawWriteV, hlt, hb]
+
+/-! ### references to `agent_positions` kept by the user -/
+
+/-- Every history: the array `_agent_positions` is never shrunk, and it is replaced (by a strictly larger one) only by
+    `_add_agent`, only when it is full.  So the number of rows names the array: a reference to `agent_positions` taken
+    after `pre` still is a view of the space's array after `pre ++ post` iff the capacity is what it was — and then it was
+    the same at every moment in between. -/
+theorem C10_exp_capacity_names_the_array (c : ECfg) (cap : Nat) (pre post : List EOp) :
+    (erun c cap pre).cap ≤ (erun c cap (pre ++ post)).cap ∧
+    (∀ op, (erun c cap (pre ++ [op])).cap = (erun c cap pre).cap ∨
+      ((erun c cap pre).cap < (erun c cap (pre ++ [op])).cap ∧ (∃ a, op = .new a) ∧ (erun c cap pre).n = (erun c cap pre).cap)) ∧
+    ((erun c cap (pre ++ post)).cap = (erun c cap pre).cap →
+      ∀ k, (erun c cap (pre ++ post.take k)).cap = (erun c cap pre).cap) := by
+  have hmono : ∀ (a b : List EOp), (erun c cap a).cap ≤ (erun c cap (a ++ b)).cap := by
+    intro a b; simp only [erun, List.foldl_append]; exact efold_cap_mono b _
+  refine ⟨hmono pre post, fun op => ?_, fun he k => ?_⟩
+  · simp only [erun, List.foldl_append, List.foldl_cons, List.foldl_nil]
+    rcases estep_cap (List.foldl estep (einit c cap) pre) op with h | ⟨h1, h2, h3⟩
+    · exact Or.inl h
+    · have := (erun_refines c cap pre).inv.cap
+      exact Or.inr ⟨h1, h2, by simp only [erun] at this; omega⟩
+  · have h1 := hmono pre (post.take k)
+    have h2 := hmono (pre ++ post.take k) (post.drop k)
+    rw [List.append_assoc, List.take_append_drop] at h2
+    omega
+
+/-- A write `v[i] = p` through a reference `v = space.agent_positions` the user took after `pre` and still holds after
+    `pre ++ post`, for every pair of histories: beyond the length `v` had it is an `IndexError`; if the array has been
+    re-allocated since, the write is lost — the space is exactly as it was; if not and row `i` is in use, it is a write
+    through the current view (`C10_exp_raw_view_write`: it moves the agent that has row `i` *now*, which after removals
+    need not be the agent `v[i]` showed when `v` was taken); if the row is no longer in use (agents were removed)
+    nothing observable changes: membership, index maps and every agent's position are as before. -/
+theorem C10_exp_kept_view_write (c : ECfg) (cap : Nat) (pre post : List EOp) (i : Nat) (p : Pos) :
+    let v := holdView (erun c cap pre)
+    let s := erun c cap (pre ++ post)
+    v.len = (erun c cap pre).active.length ∧
+    (v.len ≤ i → heldWrite s v i p = .error .index) ∧
+    (i < v.len → s.cap ≠ (erun c cap pre).cap → heldWrite s v i p = .ok s) ∧
+    (i < v.len → s.cap = (erun c cap pre).cap → i < s.active.length →
+      heldWrite s v i p = rawWrite s i p ∧ heldWrite s v i p = .ok (erun c cap (pre ++ post ++ [.raw i p]))) ∧
+    (i < v.len → s.cap = (erun c cap pre).cap → s.active.length ≤ i →
+      ∃ s', heldWrite s v i p = .ok s' ∧ s'.active = s.active ∧ s'.a2i = s.a2i ∧ s'.n = s.n ∧ s'.cap = s.cap ∧
+        s'.gone = s.gone ∧ rows s' = rows s ∧ ∀ a, agentGet s' a = agentGet s a) := by
+  dsimp only
+  have h0 := (erun_refines c cap pre).inv
+  have h := (erun_refines c cap (pre ++ post)).inv
+  have hlen : (holdView (erun c cap pre)).len = (erun c cap pre).active.length := by
+    simp only [holdView]; rw [h0.view, h0.len]
+  have hcapv : (holdView (erun c cap pre)).cap = (erun c cap pre).cap := rfl
+  refine ⟨hlen, fun hi => ?_, fun hi hc => ?_, fun hi hc hu => ?_, fun hi hc hu => ?_⟩
+  · simp [heldWrite, Nat.not_lt.mpr hi]
+  · simp [heldWrite, hi, hcapv, Ne.symm hc]
+  · have hlt : i < (erun c cap (pre ++ post)).view := by rw [h.view, h.len]; exact hu
+    have e : heldWrite (erun c cap (pre ++ post)) (holdView (erun c cap pre)) i p = rawWrite (erun c cap (pre ++ post)) i p := by
+      simp [heldWrite, rawWrite, hi, hcapv, hc, hlt]
+    refine ⟨e, ?_⟩
+    rw [e]
+    obtain ⟨a, ha⟩ : ∃ a, (erun c cap (pre ++ post)).active[i]? = some a := ⟨_, List.getElem?_eq_getElem hu⟩
+    obtain ⟨s', h1, _, _, _, _, _, _, _, h8, _⟩ := (C10_exp_raw_view_write c cap (pre ++ post) i p).1 a ha
+    rw [h1, h8]
+  · refine ⟨{ erun c cap (pre ++ post) with buf := upd (erun c cap (pre ++ post)).buf i p },
+      by simp [heldWrite, hi, hcapv, hc], rfl, rfl, rfl, rfl, rfl, ?_, fun a => ?_⟩
+    · simp only [rows, ESpace.view]
+      apply List.map_congr_left
+      intro j hj
+      have : j < (erun c cap (pre ++ post)).n := by
+        have := List.mem_range.mp hj; omega
+      have hji : j ≠ i := by rw [h.len] at this; omega
+      simp [upd, hji]
+    · simp only [agentGet, getPos, ESpace.view]
+      cases ha : (erun c cap (pre ++ post)).a2i a with
+      | none => rfl
+      | some j =>
+        have hj := h.lt ha
+        have hji : j ≠ i := by rw [h.len] at hj; omega
+        simp only [upd, hji, if_false]
+        first | rfl | (split <;> first | rfl | (split <;> rfl))
+
+/-- What a kept reference shows.  While the array has not been re-allocated, row `j` of `v` is the position of the agent
+    that is `j`-th in `space.agents` *now* (rows beyond the current number of agents are stale copies); once the array has been
+    re-allocated, `v` shows for ever what the array held at that moment — nothing that happens in the space reaches it. -/
+theorem C10_exp_kept_view_read (c : ECfg) (cap : Nat) (pre post : List EOp) (v : Held) :
+    let h := hrun c cap (pre ++ post)
+    h.sp = erun c cap (pre ++ post) ∧
+    (v.cap = h.sp.cap → ∀ j a, j < v.len → h.sp.active[j]? = some a →
+      ∃ q, (h.read v)[j]? = some q ∧ agentGet h.sp a = .ok q) ∧
+    (v.cap = (erun c cap pre).cap → ∀ op rest, post = op :: rest → (erun c cap (pre ++ [op])).cap ≠ (erun c cap pre).cap →
+      h.read v = (hrun c cap pre).read v) := by
+  dsimp only
+  have hsp : ∀ ops, (hrun c cap ops).sp = erun c cap ops := fun ops => by
+    simp only [hrun, erun]; rw [hfold_sp]; rfl
+  refine ⟨hsp _, fun hc j a hj ha => ?_, fun hc op rest hpost hgrow => ?_⟩
+  · rw [hsp] at ha hc ⊢
+    have hi := (erun_refines c cap (pre ++ post)).inv
+    have hidx := (hi.idx a j).mpr ha
+    refine ⟨(erun c cap (pre ++ post)).buf j, ?_, ?_⟩
+    · simp [HSpace.read, hsp, hc, hj]
+    · rw [agentGet_of_mem hi (List.mem_of_getElem? ha), getPos_of_idx hi hidx]
+  · subst hpost
+    have hsplit : hrun c cap (pre ++ op :: rest) = rest.foldl hstep (hstep (hrun c cap pre) op) := by
+      simp only [hrun, List.foldl_append, List.foldl_cons]
+    have hstepcap : (hstep (hrun c cap pre) op).sp.cap = (erun c cap (pre ++ [op])).cap := by
+      simp only [hstep, HSpace.advance, hsp, erun, List.foldl_append, List.foldl_cons, List.foldl_nil]
+    have hlt : (erun c cap pre).cap < (erun c cap (pre ++ [op])).cap := by
+      rcases (C10_exp_capacity_names_the_array c cap pre []).2.1 op with h | h
+      · exact absurd h hgrow
+      · exact h.1
+    have hfin : v.cap < (rest.foldl hstep (hstep (hrun c cap pre) op)).sp.cap := by
+      rw [hfold_sp]
+      have := efold_cap_mono rest (hstep (hrun c cap pre) op).sp
+      omega
+    have horph : (rest.foldl hstep (hstep (hrun c cap pre) op)).orph v.cap = (erun c cap pre).buf := by
+      rw [hfold_orph_frozen rest _ v.cap (by omega)]
+      simp only [hstep, HSpace.advance, hsp]
+      have hne : ¬ (estep (erun c cap pre) op).cap = (erun c cap pre).cap := by
+        have : estep (erun c cap pre) op = erun c cap (pre ++ [op]) := by
+          simp only [erun, List.foldl_append, List.foldl_cons, List.foldl_nil]
+        rw [this]; exact hgrow
+      simp [hne, upd, hc]
+    rw [hsplit]
+    simp only [HSpace.read]
+    rw [if_neg (by omega), horph, hsp, if_pos hc]
 
 /-- Legacy, every history: `get_neighbors(p, r, include_center)` returns exactly the agents in the space
     whose squared distance to `p` is at most `r²` (those at distance 0 only if `include_center`), computed
@@ -220,6 +623,76 @@ theorem C10_legacy_neighbors_exact (c : LCfg) (ops : List LOp) (p : P2) (r : Int
     show (getNeighbors (lrun c ops) p r incl).1.pos = _
     rw [h1]; exact h4
 
+/-- Legacy: `agent.pos` is a plain attribute, and a user who assigns it directly (instead of calling `move_agent`) can
+    make the space incoherent — for a while.  At every reachable state, for an agent of the space: membership and the other
+    agents' `pos` are untouched and the agent reports `p`.  If no position cache exists, then for a point of the space the
+    write is indistinguishable from `move_agent(a, p)`.  If the cache exists, `get_neighbors` goes on answering from it, that
+    is for the position the agent *had* (the same answer as before the write) — until the next accepted `place_agent` or
+    `remove_agent` of any agent throws the cache away: from then on the state is the one `move_agent(a, p)` followed by that
+    call would have produced. -/
+theorem C10_legacy_direct_pos_write (c : LCfg) (ops : List LOp) (a : Aid) (p : P2) :
+    let s := lrun c ops
+    let s' := lpoke s a p
+    s'.agents = s.agents ∧ s'.pos a = some p ∧ (∀ b, b ≠ a → s'.pos b = s.pos b) ∧
+    (s.pts = none → torusAdj c p = .ok p → s' = lrun c (ops ++ [.move a p])) ∧
+    (∀ pts, s.pts = some pts → ∀ q r incl,
+      (getNeighbors s' q r incl).2 = (getNeighbors s q r incl).2 ∧
+      (getNeighbors s' q r incl).2 = .ok (nbrSpec c (lspec c ops).1 (lspec c ops).2 q r incl)) ∧
+    (torusAdj c p = .ok p →
+      (∀ b q s'', place s' b q = .ok s'' → s'' = lrun c (ops ++ [.move a p, .place b q])) ∧
+      (∀ b s'', remove s' b = .ok s'' → s'' = lrun c (ops ++ [.move a p, .remove b]))) := by
+  dsimp only
+  have h := lrun_refines c ops
+  have hmove : torusAdj c p = .ok p →
+      (move (lrun c ops) a p).1.cfg = (lrun c ops).cfg ∧ (move (lrun c ops) a p).1.a2i = (lrun c ops).a2i ∧
+      (move (lrun c ops) a p).1.pos = upd (lrun c ops).pos a (some p) := by
+    intro hp
+    simp only [move, h.cfg, hp]
+    repeat' split
+    all_goals exact ⟨rfl, rfl, rfl⟩
+  refine ⟨rfl, by simp [lpoke, upd], fun b hb => by simp [lpoke, upd, hb], fun hn hp => ?_, fun pts hpts q r incl => ?_,
+    fun hp => ⟨fun b q s'' hs => ?_, fun b s'' hs => ?_⟩⟩
+  · simp only [lrun, List.foldl_append, List.foldl_cons, List.foldl_nil, lstep]
+    show lpoke (lrun c ops) a p = (move (lrun c ops) a p).1
+    simp only [move, h.cfg, hp, lpoke]
+    have hn' : (lrun c ops).pts = none := hn
+    simp [hn']
+  · have e : (getNeighbors (lpoke (lrun c ops) a p) q r incl).2 = (getNeighbors (lrun c ops) q r incl).2 := by
+      have hpts' : (lrun c ops).pts = some pts := hpts
+      simp only [getNeighbors, ensureCache, lpoke, hpts']
+      split <;> rfl
+    exact ⟨e, by rw [e]; exact (C10_legacy_neighbors_exact c ops q r incl).1⟩
+  · obtain ⟨m1, m2, m3⟩ := hmove hp
+    simp only [lrun, List.foldl_append, List.foldl_cons, List.foldl_nil, lstep]
+    show s'' = (match place (move (lrun c ops) a p).1 b q with | .ok t => t | .error _ => (move (lrun c ops) a p).1)
+    simp only [place, lpoke, invalidate] at hs ⊢
+    rw [m1]
+    split at hs
+    · cases hs
+    · cases hs
+      simp only [m2, m3]
+  · obtain ⟨m1, m2, m3⟩ := hmove hp
+    simp only [lrun, List.foldl_append, List.foldl_cons, List.foldl_nil, lstep]
+    show s'' = (match remove (move (lrun c ops) a p).1 b with | .ok t => t | .error _ => (move (lrun c ops) a p).1)
+    have hk' : (lpoke (lrun c ops) a p).a2i.keys.contains b = (lrun c ops).a2i.keys.contains b := rfl
+    cases hk : (lrun c ops).a2i.keys.contains b with
+    | false =>
+      have : remove (lpoke (lrun c ops) a p) b = .error .notIn := by
+        simp only [remove]; rw [hk', hk]; rfl
+      rw [this] at hs; cases hs
+    | true =>
+      have e1 : remove (lpoke (lrun c ops) a p) b =
+          .ok { cfg := (lrun c ops).cfg, a2i := (lrun c ops).a2i.del b, i2a := [], pts := none,
+                pos := upd (upd (lrun c ops).pos a (some p)) b none } := by
+        simp only [remove]; rw [hk', hk]; rfl
+      have hk2 : (move (lrun c ops) a p).1.a2i.keys.contains b = true := by rw [m2]; exact hk
+      have e2 : remove (move (lrun c ops) a p).1 b =
+          .ok { cfg := (move (lrun c ops) a p).1.cfg, a2i := (move (lrun c ops) a p).1.a2i.del b, i2a := [], pts := none,
+                pos := upd (move (lrun c ops) a p).1.pos b none } := by
+        simp only [remove]; rw [hk2]; rfl
+      rw [e1] at hs; cases hs
+      rw [e2, m1, m2, m3]
+
 /-- … read as a set: an agent is returned iff it is in the space and within the radius. -/
 theorem C10_legacy_neighbors_mem (c : LCfg) (ops : List LOp) (p : P2) (r : Int) (incl : Bool) (a : Aid) :
     a ∈ nbrSpec c (lspec c ops).1 (lspec c ops).2 p r incl ↔
@@ -236,6 +709,92 @@ theorem C10_legacy_neighbors_mem (c : LCfg) (ops : List LOp) (p : P2) (r : Int) 
     | some q => simp only [hq] at h2; exact ⟨q, rfl, by simpa using h2⟩
   · rintro ⟨h1, q, hq, h2, h3⟩
     exact ⟨h1, by simp only [hq]; simpa using ⟨h2, h3⟩⟩
+
+/-- Legacy, `include_center = False`, every history, query point inside the space: the agents returned are exactly
+    those within the radius whose position is *not* the query point — every agent sitting exactly on the point is
+    left out, however many coincide there (and nobody else: distance 0 means same point). -/
+theorem C10_legacy_exclude_center (c : LCfg) (hw : c.WF) (ops : List LOp) (p : P2) (hp : oob c p = false)
+    (r : Int) (a : Aid) :
+    a ∈ nbrSpec c (lspec c ops).1 (lspec c ops).2 p r false ↔
+      a ∈ (lrun c ops).agents ∧ ∃ q, (lrun c ops).pos a = some q ∧ q ≠ p ∧ ldist2 c q p ≤ r * r := by
+  rw [C10_legacy_neighbors_mem]
+  constructor
+  · rintro ⟨h1, q, hq, h2, h3⟩
+    refine ⟨h1, q, hq, ?_, h2⟩
+    rintro rfl
+    obtain ⟨q', hq', hin⟩ := C10_legacy_positions_inside c hw ops a h1
+    rw [hq] at hq'; cases hq'
+    have := (ldist2_eq_zero_iff c hw q q hin hin).mpr rfl
+    rcases h3 with h3 | h3
+    · cases h3
+    · omega
+  · rintro ⟨h1, q, hq, hne, h2⟩
+    refine ⟨h1, q, hq, h2, Or.inr ?_⟩
+    obtain ⟨q', hq', hin⟩ := C10_legacy_positions_inside c hw ops a h1
+    rw [hq] at hq'; cases hq'
+    have hnn : 0 ≤ ldist2 c q p := by
+      unfold ldist2
+      have := sq_nonneg (axisDist c.torus c.width q.1 p.1)
+      have := sq_nonneg (axisDist c.torus c.height q.2 p.2)
+      omega
+    have hz : ldist2 c q p ≠ 0 := fun h0 => hne ((ldist2_eq_zero_iff c hw q p hin hp).mp h0)
+    omega
+
+/-- Legacy: two points of the space are at distance 0 iff they are the same point (bounded or torus: the upper
+    edge is not part of the space, so no point has a second image inside it). -/
+theorem C10_legacy_zero_distance_iff_same_point (c : LCfg) (hw : c.WF) (p q : P2)
+    (hp : oob c p = false) (hq : oob c q = false) : ldist2 c p q = 0 ↔ p = q :=
+  ldist2_eq_zero_iff c hw p q hp hq
+
+/-- Legacy: the radius only enters squared — a negative radius selects the same agents as its absolute value.
+    (The experimental space differs: `C10_exp_negative_radius`.) -/
+theorem C10_legacy_negative_radius (c : LCfg) (ops : List LOp) (p : P2) (r : Int) (incl : Bool) :
+    (getNeighbors (lrun c ops) p (-r) incl).2 = (getNeighbors (lrun c ops) p r incl).2 := by
+  rw [(C10_legacy_neighbors_exact c ops p (-r) incl).1, (C10_legacy_neighbors_exact c ops p r incl).1]
+  unfold nbrSpec; rw [Int.neg_mul_neg]
+
+/-- Legacy `move_agent` of an agent that is *not in the space* (never placed, or removed), every history: a point
+    the assignment rule rejects is rejected as usual; otherwise the space itself is not touched at all — members,
+    index maps, cache, every member's position, hence every query answer — only the foreign agent object's own
+    `pos` attribute is written, and the call raises `KeyError` exactly when the position cache happens to exist
+    (after a `get_neighbors` with no placement / removal since), else returns normally.  The agent does not
+    become a member either way.  (Not one of the rejections C18 lists; the write to the outsider's attribute is
+    the only effect and is the same whether or not the call raises.) -/
+theorem C10_legacy_move_foreign_agent (c : LCfg) (ops : List LOp) (a : Aid) (p : P2) :
+    let s := lrun c ops
+    a ∉ s.agents →
+    (∀ e, torusAdj c p = .error e → move s a p = (s, .error e)) ∧
+    (∀ p', torusAdj c p = .ok p' →
+      move s a p = ({ s with pos := upd s.pos a (some p') }, if s.pts.isSome then .error .key else .ok ()) ∧
+      (lrun c (ops ++ [.move a p])).agents = s.agents ∧
+      (∀ b, b ≠ a → (lrun c (ops ++ [.move a p])).pos b = s.pos b) ∧
+      ∀ q r incl, (getNeighbors (lrun c (ops ++ [.move a p])) q r incl).2 = (getNeighbors s q r incl).2) := by
+  dsimp only
+  intro ha
+  have h := lrun_refines c ops
+  obtain ⟨h1, h2⟩ := move_foreign h.inv a p ha
+  refine ⟨fun e he => h1 e (by rw [h.cfg]; exact he), fun p' hp => ?_⟩
+  have hm := h2 p' (by rw [h.cfg]; exact hp)
+  have hstep : lrun c (ops ++ [LOp.move a p]) = lstep (lrun c ops) (LOp.move a p) := by
+    simp only [lrun, List.foldl_append, List.foldl_cons, List.foldl_nil]
+  have hrun : lrun c (ops ++ [LOp.move a p]) = { lrun c ops with pos := upd (lrun c ops).pos a (some p') } := by
+    rw [hstep]
+    show (move (lrun c ops) a p).1 = _
+    rw [hm]
+  refine ⟨hm, by rw [hrun]; rfl, fun b hb => by rw [hrun]; simp [upd, hb], fun q r incl => ?_⟩
+  rw [(C10_legacy_neighbors_exact c (ops ++ [LOp.move a p]) q r incl).1, (C10_legacy_neighbors_exact c ops q r incl).1]
+  have hk : (lspec c (ops ++ [LOp.move a p])).1 = (lspec c ops).1 := by
+    rw [← (C10_legacy_positions_all_histories c _).1, ← (C10_legacy_positions_all_histories c ops).1, hrun]; rfl
+  have hpo : (lspec c (ops ++ [LOp.move a p])).2 = upd (lspec c ops).2 a (some p') := by
+    rw [← (C10_legacy_positions_all_histories c _).2, ← (C10_legacy_positions_all_histories c ops).2, hrun]
+  rw [hk, hpo]
+  unfold nbrSpec
+  congr 1
+  apply List.filter_congr
+  intro b hb
+  have hba : b ≠ a := by
+    rintro rfl; exact ha (by rw [(C10_legacy_positions_all_histories c ops).1]; exact hb)
+  simp [upd, hba]
 
 /-- Experimental, every history: `get_agents_in_radius(pt, r)` returns exactly the pairs (agent, squared
     distance) of the agents in the space whose distance from `pt` to their true position is at most `r`,
@@ -396,6 +955,74 @@ theorem C10_exp_nearest_neighbors (argpart : List Int → Nat → List Nat) (hap
     obtain ⟨be, hbe, e⟩ := List.mem_map.mp hm
     exact hout (List.mem_map.mpr ⟨be, (hmemf be).mpr ⟨hbe, by rw [e]; exact hba⟩, e⟩)
 
+/-- Experimental `agent.get_nearest_neighbors(k)` with *no assumption about coincident agents*, every history, every
+    admissible `argpartition`, `k + 1 ≤ n`: the answer consists of pairwise distinct *other* agents with their
+    correct distances, none farther than an other agent left out — and it has `k` entries, except in one case:
+    when the agent itself was not among the `k + 1` nearest that numpy picked (possible only if at least `k + 1`
+    other agents sit exactly on the agent's position) the answer has `k + 1` entries, all at distance 0. -/
+theorem C10_exp_nearest_neighbors_ties (argpart : List Int → Nat → List Nat) (hap : ArgPartSpec argpart)
+    (c : ECfg) (hw : c.WF) (cap : Nat) (ops : List EOp) (a : Aid) (p : Pos) (k : Nat) :
+    let s := erun c cap ops
+    a ∈ s.active → getPos s a = .ok p → k + 1 ≤ s.active.length →
+    ∃ res, nearestNeighbors argpart s a k = .ok res ∧ (res.map (·.1)).Nodup ∧ a ∉ res.map (·.1) ∧
+      (∀ ad ∈ res, ad.1 ∈ s.active ∧ ∃ q, getPos s ad.1 = .ok q ∧ ad.2 = edist2 c p q) ∧
+      (∀ ad ∈ res, ∀ b ∈ s.active, b ≠ a → b ∉ res.map (·.1) →
+        ∀ q, getPos s b = .ok q → ad.2 ≤ edist2 c p q) ∧
+      (res.length = k ∨ (res.length = k + 1 ∧ ∀ ad ∈ res, ad.2 = 0)) := by
+  dsimp only
+  intro ha hp hk
+  obtain ⟨full, h1, h2, h3, h4, h5⟩ := C10_exp_k_nearest argpart hap c cap ops p (k + 1) (by omega) hk
+  have h0 : edist2 c p p = 0 := dist2Aux_self _ _ _ (fun d hd => by have := hw d hd; omega)
+  have hmemf : ∀ ad, ad ∈ full.filter (fun ad => ad.1 ≠ a) ↔ ad ∈ full ∧ ad.1 ≠ a := by
+    intro ad; rw [List.mem_filter]; simp
+  refine ⟨full.filter (fun ad => ad.1 ≠ a), by simp only [nearestNeighbors, hp, h1], ?_, ?_, ?_, ?_, ?_⟩
+  · exact h3.sublist ((List.filter_sublist).map _)
+  · intro hm
+    obtain ⟨ad, had, e⟩ := List.mem_map.mp hm
+    exact ((hmemf ad).mp had).2 e
+  · intro ad had; exact h4 ad ((hmemf ad).mp had).1
+  · intro ad had b hb hba hout q hq
+    apply h5 ad ((hmemf ad).mp had).1 b hb _ q hq
+    intro hm
+    obtain ⟨be, hbe, e⟩ := List.mem_map.mp hm
+    exact hout (List.mem_map.mpr ⟨be, (hmemf be).mpr ⟨hbe, by rw [e]; exact hba⟩, e⟩)
+  · by_cases hain : a ∈ full.map (·.1)
+    · left
+      have := length_filter_ne_of_nodup full a h3 hain; omega
+    · right
+      have hall : full.filter (fun ad => ad.1 ≠ a) = full := by
+        rw [List.filter_eq_self]
+        intro ad had
+        have : ad.1 ≠ a := by rintro e; exact hain (List.mem_map.mpr ⟨ad, had, e⟩)
+        simpa using this
+      rw [hall]
+      refine ⟨h2, fun ad had => ?_⟩
+      have hle := h5 ad had a ha hain p hp
+      obtain ⟨_, q, _, hd⟩ := h4 ad had
+      have hnn : 0 ≤ ad.2 := by rw [hd]; exact dist2Aux_nonneg _ _ _ _
+      rw [h0] at hle; omega
+
+/-- Experimental, negative radius, every history: `get_agents_in_radius` returns nothing (no distance is below a
+    negative number), and `agent.get_neighbors_in_radius` raises `IndexError` (its mask over the empty answer is a
+    float array) — the only way the latter can raise for an agent of the space (`C10_exp_neighbors_in_radius`). -/
+theorem C10_exp_negative_radius (c : ECfg) (cap : Nat) (ops : List EOp) (pt : Pos) (a : Aid) (r : Int) (hr : r < 0) :
+    let s := erun c cap ops
+    agentsInRadius s pt r = [] ∧ (a ∈ s.active → agentNir s a r = .error .index) := by
+  intro s
+  have hnil : ∀ pt, agentsInRadius s pt r = [] := by
+    intro pt
+    unfold agentsInRadius
+    rw [List.filter_eq_nil_iff]
+    intro ad _
+    have : ¬ (0 ≤ r) := by omega
+    simp [this]
+  refine ⟨hnil pt, fun ha => ?_⟩
+  have h := erun_refines c cap ops
+  obtain ⟨i, hi⟩ := (h.inv.mem_iff a).mp ha
+  have hg : getPos s a = .ok (s.buf i) := getPos_of_idx h.inv hi
+  have hng : s.gone a = false := h.inv.not_gone hi
+  simp [agentNir, hng, neighborsInRadius, hg, hnil]
+
 /-- `k = 0` returns nothing; `k` larger than the number of agents is rejected (`ValueError`). -/
 theorem C10_exp_k_nearest_range (argpart : List Int → Nat → List Nat) (c : ECfg) (cap : Nat)
     (ops : List EOp) (pt : Pos) (k : Nat) :
@@ -426,6 +1053,41 @@ theorem C10_torus_axis_is_nearest_image (s a b : Int) (hs : 0 < s) (hd : iabs (a
 
 /-- without a torus the per-axis separation is `|a - b|`: the distance is Euclidean -/
 theorem C10_flat_axis_is_abs (s a b : Int) : axisDist false s a b = iabs (a - b) := axisDist_flat s a b
+
+/-- Heading / difference vector along one axis of a torus of circumference `s` (legacy `get_heading` and
+    experimental `calculate_difference_vector` compute every component this way), for coordinates at most `s` apart:
+    it is the direct difference `b - a` while that is shorter than half the circumference and the image through the
+    edge `b - a ∓ s` when it is longer.  On the tie — `b` exactly half-way round, `|b - a| = s/2`, both images
+    equally long — the code takes the image through the edge, which is `a - b`: the heading then points *away* from
+    `b`'s direct position (`heading = -(b - a)`), and swapping the two points flips it. -/
+theorem C10_torus_heading_cases (s a b : Int) (hd : iabs (b - a) ≤ s) :
+    (2 * iabs (b - a) < s → axisHeading true s a b = b - a) ∧
+    (2 * iabs (b - a) = s → axisHeading true s a b = a - b ∧ axisHeading true s b a = b - a) ∧
+    (s < 2 * iabs (b - a) → axisHeading true s a b = b - a - sgn (b - a) * s) := by
+  have h1 := axisHeading_torus_cases s a b hd
+  have h2 := axisHeading_torus_cases s b a (by rw [iabs_sub_comm]; exact hd)
+  refine ⟨h1.1, fun h => ⟨h1.2.1 h, h2.2.1 (by rw [iabs_sub_comm]; exact h)⟩, h1.2.2⟩
+
+/-- … in every case (tie included) following the heading from `a` arrives at `b` or at one of its two neighbouring
+    periodic images, and no periodic image of `b` is nearer than the heading is long. -/
+theorem C10_torus_heading_reaches_target (s a b : Int) (hs : 0 < s) (hd : iabs (a - b) ≤ s) :
+    (a + axisHeading true s a b = b ∨ a + axisHeading true s a b = b + s ∨ a + axisHeading true s a b = b - s) ∧
+    ∀ k : Int, iabs (axisHeading true s a b) ≤ iabs (a - b + k * s) := by
+  refine ⟨axisHeading_reaches s a b, fun k => ?_⟩
+  have h1 := axisDist_torus_le_image s a b hs hd k
+  have h0 : 0 ≤ axisDist true s a b := by
+    simp only [axisDist, if_true]; unfold iabs at *; split <;> omega
+  rcases axisHeading_eq_or_neg true s a b (by omega) with h | h <;> rw [h] <;> unfold iabs at * <;> split <;> omega
+
+/-- without a torus the heading is the plain difference -/
+theorem C10_flat_heading_is_difference (s a b : Int) : axisHeading false s a b = b - a := axisHeading_flat s a b
+
+/-- The per-axis separation is 0 for equal coordinates and, on a torus, for the two edges (`|a - b| = s`), nothing else.
+    The experimental space keeps the upper edge inside its bounds, so on an experimental torus the points `min` and
+    `max` of an axis are distinct stored positions at distance 0 (example below); the legacy space excludes the upper
+    edge (`C10_legacy_zero_distance_iff_same_point`). -/
+theorem C10_axis_zero_distance_iff (t : Bool) (s a b : Int) (hs : 0 < s) :
+    axisDist t s a b = 0 ↔ a = b ∨ (t = true ∧ iabs (a - b) = s) := axisDist_eq_zero_iff t s a b hs
 
 /-- Legacy `get_distance` is symmetric. -/
 theorem C10_legacy_distance_symmetric (c : LCfg) (p q : P2) : ldist2 c p q = ldist2 c q p := by
@@ -488,12 +1150,91 @@ example : exE.WF := by
 example : (erun exE 0 exEOps).active = [2, 3, 4] := by decide
 example : ((erun exE 0 exEOps).n, (erun exE 0 exEOps).cap) = (3, 3) := by decide
 example : getPos (erun exE 0 exEOps) 3 = .ok [10, 10, 10] := by rfl
-example : (espec exE exEOps).2 3 = some [10, 10, 10] := by decide
+example : (espec exE exEOps).pos 3 = some [10, 10, 10] := by decide
 example : agentsInRadius (erun exE 0 exEOps) [0, 0, 0] 65 = [(3, 300), (4, 4101)] := by decide
 /-- one admissible `argpartition` answer for the three distances `[24576, 300, 4101]` and `kth = 1` -/
 example : kNearest (fun _ _ => [1, 2, 0]) (erun exE 0 exEOps) [0, 0, 0] 2 = .ok [(3, 300), (4, 4101)] := by
   rfl
 
+/-! any number of dimensions: a 1-D torus and a 5-D bounded space (the theorems above never mention the dimension) -/
+def exE1 : ECfg := { dims := [(-64, 64)], torus := true }
+def exE5 : ECfg := { dims := [(0, 64), (0, 64), (-64, 0), (0, 128), (10, 20)], torus := false }
+example : getPos (erun exE1 1 [.new 1, .set 1 [70], .new 2, .set 2 [-60]]) 1 = .ok [-58] := by rfl
+example : agentsInRadius (erun exE1 1 [.new 1, .set 1 [70], .new 2, .set 2 [-60]]) [60] 10 = [(1, 100), (2, 64)] := by
+  decide
+example : (erun exE5 0 [.new 1, .set 1 [1, 2, -3, 4, 15], .new 2, .set 2 [0, 0, 0, 0, 21]]).active = [1, 2] := by decide
+example : getPos (erun exE5 0 [.new 1, .set 1 [1, 2, -3, 4, 15], .new 2, .set 2 [0, 0, 0, 0, 21]]) 1 = .ok [1, 2, -3, 4, 15] := by rfl
+example : setPos (erun exE5 0 [.new 1, .set 1 [1, 2, -3, 4, 15], .new 2]) 2 [0, 0, 0, 0, 21] = .error .oob := by rfl
+example : calcD2 (erun exE5 0 [.new 1, .set 1 [1, 2, -3, 4, 15], .new 2, .set 2 [0, 0, 0, 0, 20]]) [0, 0, 0, 0, 10] = [55, 100] := by
+  decide
+
+/-! edge cases: the half-size tie of the heading, the two edges of an experimental torus, a foreign `move_agent` -/
+example : lheading exL (0, 0) (320, 100) = (-320, 100) := by decide          -- tie on x: through the edge
+example : lheading exL (320 - 1, 0) (-1, 0) = (320, 0) := by decide           -- … and the reverse direction
+example : ldist2 exL (0, 0) (320, 0) = 320 * 320 := by decide
+example : edist2 exE1 [-64] [64] = 0 := by decide
+example : inBounds exE1.dims [-64] = true ∧ inBounds exE1.dims [64] = true := by decide
+example : (move (lrun exL (exOps.take 3)) 9 (5, 5)).2 = .error .key := by rfl
+example : (move (lrun exL (exOps.take 3)) 9 (5, 5)).1.pos 9 = some (5, 5) ∧
+    (move (lrun exL (exOps.take 3)) 9 (5, 5)).1.agents = [1, 2] := by decide
+example : (move (lrun exL (exOps.take 2)) 9 (5, 5)).2 = .ok () := by rfl
+/-- five agents on one spot: with this admissible `argpartition` answer agent 3 gets two neighbours for `k = 1` -/
+example : nearestNeighbors (fun _ _ => [0, 1, 2, 3, 4])
+    (erun exE1 0 [.new 1, .set 1 [0], .new 2, .set 2 [0], .new 3, .set 3 [0], .new 4, .set 4 [0], .new 5, .set 5 [0]]) 3 1 =
+    .ok [(1, 0), (2, 0)] := by rfl
+
+/-- a raw write can put an agent outside a bounded space: what `C10_exp_positions_inside` excludes for the agent API -/
+example : (rawWrite (erun exE 0 exEOps) 1 [999, 0, 0]).toOption.map (fun s => agentGet s 3) = some (.ok [999, 0, 0]) := by
+  rfl
+example : inBounds exE.dims [999, 0, 0] = false := by decide
+/-- … and a history with writes through the view: the bookkeeping follows them, the queries answer for the written rows -/
+def exERaw : List EOp := exEOps ++ [.raw 1 [999, 0, 0], .raw 7 [0, 0, 0], .raw 0 [1, 1, 1], .remove 2, .new 5, .set 5 [0, 0, 0]]
+example : (erun exE 0 exERaw).active = [3, 4, 5] := by decide
+example : (espec exE exERaw).pos 3 = some [999, 0, 0] := by decide
+example : agentGet (erun exE 0 exERaw) 3 = .ok [999, 0, 0] := by rfl
+example : agentsInRadius (erun exE 0 exERaw) [990, 0, 0] 10 = [(3, 81)] := by decide
+/-- the hypothesis of `C10_exp_positions_inside` holds of a history with an in-bounds write through the view -/
+example : ∀ i p, EOp.raw i p ∈ exEOps ++ [.raw 1 [64, 0, 0]] → inBounds exE.dims p = true := by
+  intro i p h; simp [exEOps] at h; obtain ⟨_, rfl⟩ := h; decide
+/-! legacy, `agent.pos` written directly while the cache is live: `get_neighbors` still answers for the old position `(64, 64)`;
+after the next placement the state is the one `move_agent` would have given -/
+def exLd : LCfg := { xmin := 0, xmax := 640, ymin := 0, ymax := 640, torus := false }
+def exLdOps : List LOp := [.place 1 (64, 64), .place 2 (320, 320), .nbrs (0, 0) 100 true]
+example : (lrun exLd exLdOps).pts = some [(64, 64), (320, 320)] := by decide
+example : (getNeighbors (lpoke (lrun exLd exLdOps) 1 (600, 600)) (64, 64) 10 true).2 = .ok [1] := by rfl
+example : (getNeighbors (lpoke (lrun exLd exLdOps) 1 (600, 600)) (600, 600) 10 true).2 = .ok [] := by rfl
+example : (lpoke (lrun exLd exLdOps) 1 (600, 600)).pos 1 = some (600, 600) := by decide
+example : (getNeighbors (lstep (lpoke (lrun exLd exLdOps) 1 (600, 600)) (.place 3 (1, 1))) (600, 600) 10 true).2 = .ok [1] := by
+  rfl
+
+/-! vectors of the wrong length: `[5]` is taken for `(5, 5, 5)`; two coordinates in a 3-D space are a `ValueError`; the
+distances of a bounded space refuse `[5]` while its difference vectors, and the distances of a torus, broadcast it -/
+def exT : ECfg := { dims := [(0, 64), (0, 64)], torus := true }
+example : (agentSetV (erun exE 0 exEOps) 3 [5]).toOption.map (fun s => agentGet s 3) = some (.ok [5, 5, 5]) := by rfl
+example : (agentSetV (erun exE 0 exEOps) 3 [5, 5]).toOption.map (fun s => agentGet s 3) = none := by rfl
+example : distancesOfV (erun exE 0 exEOps) [5] none = .error .value := by rfl
+example : (diffsOfV (erun exE 0 exEOps) [0] none).toOption.map (·.length) = some 3 := by rfl
+example : distancesOfV (erun exT 0 [.new 1, .set 1 [1, 2]]) [0] none = .ok [(1, 5)] := by rfl
+example : distancesOfV (erun exT 0 [.new 1, .set 1 [1, 2]]) [0, 0, 0] none = .error .value := by rfl
+
+/-! references to `agent_positions` kept by the user: a 1-D space of capacity 1; the reference is taken with one agent in the
+space (`⟨1, 1⟩`: one row, length 1), the second agent re-allocates the array -/
+def exK : ECfg := { dims := [(0, 64)], torus := false }
+def exKpre : List EOp := [.new 1, .set 1 [5]]
+example : holdView (erun exK 1 exKpre) = ⟨1, 1⟩ := by decide
+example : (hrun exK 1 (exKpre ++ [.set 1 [7]])).read ⟨1, 1⟩ = [[7]] := by rfl
+example : (erun exK 1 (exKpre ++ [.new 2])).cap = 2 := by decide
+example : (hrun exK 1 (exKpre ++ [.new 2, .set 2 [9], .set 1 [8]])).read ⟨1, 1⟩ = [[5]] := by rfl
+example : (heldWrite (erun exK 1 (exKpre ++ [.new 2])) ⟨1, 1⟩ 0 [3]).toOption.map (fun s => agentGet s 1) = some (.ok [5]) := by
+  rfl
+example : (heldWrite (erun exK 1 exKpre) ⟨1, 1⟩ 0 [3]).toOption.map (fun s => agentGet s 1) = some (.ok [3]) := by rfl
+/-- capacity 5, reference taken with agents 1 and 2; after `1.remove()` row 0 is agent 2's: `v[0] = 9` moves agent 2, and
+    `v[1] = 9` (a row no agent has any more) moves nobody -/
+def exKrm : List EOp := [.new 1, .set 1 [5], .new 2, .set 2 [6], .remove 1]
+example : holdView (erun exK 5 (exKrm.take 4)) = ⟨5, 2⟩ := by decide
+example : (heldWrite (erun exK 5 exKrm) ⟨5, 2⟩ 0 [9]).toOption.map (fun s => agentGet s 2) = some (.ok [9]) := by rfl
+example : (heldWrite (erun exK 5 exKrm) ⟨5, 2⟩ 1 [9]).toOption.map (fun s => agentGet s 2) = some (.ok [6]) := by rfl
+example : (hrun exK 5 exKrm).read ⟨5, 2⟩ = [[6], [6]] := by rfl
 end Examples
 
 end Mesa.Cont
